@@ -131,7 +131,9 @@ func (c *Client) ProcessCommand(ctx context.Context, cmd *RequestCommand) (*Resp
 func (c *Client) channelOK() bool {
 	c.mu.RLock()
 	defer c.mu.RUnlock()
-	return c.channel != nil && c.channel.Established()
+	// A channel whose receiver is gone (for instance, after an envelope that could not be decoded) may still be
+	// in the established state with a connected transport, but it will never receive anything again.
+	return c.channel != nil && c.channel.Established() && !c.channel.receiverDone()
 }
 
 func (c *Client) getOrBuildChannel(ctx context.Context) (*ClientChannel, error) {
